@@ -315,3 +315,131 @@ Lemma visible_nodup c s : reachable c s -> NoDup (visible s).
 Proof. intro R. apply (v_nodup _ (reachable_invv _ _ R)). Qed.
 Lemma always_below c s : cfg_wf c -> reachable c s -> below_limits c (buf s).
 Proof. intros Hc R. apply (b_below _ _ (reachable_invb _ _ Hc R)). Qed.
+
+(* ------------------------------------------------------------------ no deadlock (C05 progress, partial) *)
+Record InvN (s : state) : Prop := {
+  n_wack : forall x l, wpc s = WAck x l -> l <> [];
+  n_aab : forall l, apc s = AAbandon l -> l <> [];
+  n_live : forall f, wpc s = WHold f -> wlive s = false -> fcanc s = true }.
+
+Lemma mk_wack_nonnil x l y l' : mk_wack x l = WAck y l' -> l' <> [].
+Proof. destruct l; cbn; intro H; inversion H; discriminate. Qed.
+Lemma mk_aab_nonnil l l' : mk_aab l = AAbandon l' -> l' <> [].
+Proof. destruct l; cbn; intro H; inversion H; discriminate. Qed.
+
+Lemma invn_step c s l s' : Idle0 s -> InvN s -> step c s l = Some s' -> InvN s'.
+Proof.
+  intros I0 [A B C] H. unfold Idle0 in I0.
+  step_cases H; bool_hyps; split; sproj; rw_pcs; rw_hyps; try assumption;
+    try solve [ intros; first [ discriminate | congruence | eapply mk_wack_nonnil; eassumption | eapply mk_aab_nonnil; eassumption
+                              | eauto ] ].
+  - intros f0 E0 E1. specialize (C _ E0 E1). congruence.
+  - intros f0 _ E1. now apply negb_false_iff in E1.
+  - intros f0 E0. destruct (fw f); discriminate.
+  - intros f0 E0. destruct (fw f); discriminate.
+  - intros f0 E0. destruct l0; discriminate.
+Qed.
+
+Lemma reachable_invn c s : reachable c s -> InvN s.
+Proof.
+  induction 1.
+  - split; cbn; intros; discriminate.
+  - eapply invn_step; eauto. eapply i_idle, reachable_inv1; eauto.
+Qed.
+
+Definition internal (l : label) : Prop :=
+  match l with
+  | LActorTake _ | LActorForce | LActorAckNow | LActorReject | LActorBuffer _ | LTickFlush | LFqSent | LFqAbandon
+  | LDrainEnd | LActorExit | LWorkerTake | LFlAbandoned | LFlAckOnly | LFlBegin | LSBegin _ | LSEnd _ _ | LAck _ _ => True
+  | _ => False
+  end.
+
+Lemma assoc_some {A} r (l : list (nat * A)) : In r (map fst l) -> exists v, assoc r l = Some v.
+Proof.
+  induction l as [|[q a] t IH]; cbn; [tauto|]. intros [->|Hin].
+  - rewrite Nat.eqb_refl. eauto.
+  - destruct (Nat.eqb r q); eauto.
+Qed.
+
+(* with a started engine, time able to elapse, stores that answer and no abandoned channel among the
+   in-flight requests, the engine itself always has an enabled step while a request is in flight *)
+Lemma no_deadlock c s : cfg_wf c -> reachable c s -> started s = true -> c_timeless c = false ->
+  pipeline s <> [] ->
+  (forall r, In r (pipeline s) -> chan_of s r <> Some ChAbandon) ->
+  exists l s', internal l /\ step c s l = Some s'.
+Proof.
+  intros Hc R Hst Htl Hne Hch.
+  pose proof (reachable_inv2 _ _ R) as [L1 L2 L3 L4 L5 L6 L7 L8 L9 LS L10 L11 L12 L13].
+  pose proof (reachable_invn _ _ R) as [N1 N2 N3].
+  pose proof (reachable_invb _ _ Hc R) as [B1 B2 B3 B4 B5 B6 B7 B8 B9].
+  destruct (LS Hst) as [Han Hwn]. destruct Hc as (C1 & C2 & C3 & C4).
+  (* every in-flight request has a description *)
+  assert (Hlk : forall r, In r (pipeline s) -> exists k ch, lookup s r = Some (k, ch)).
+  { intros r Hin. assert (Hk : In r (keys s)) by (eapply places_keys; eauto; apply in_app_iff; auto).
+    destruct (assoc_some _ _ Hk) as [[k ch] E]. exists k, ch. exact E. }
+  (* a delivery attempt on an in-flight request is enabled *)
+  assert (Hdel : forall w r x, target s w = Some (r, x) -> exists o s', step c s (LAck w o) = Some s').
+  { intros w r x Ht. pose proof (target_in_pipeline _ _ _ _ Ht) as Hin.
+    destruct (Hlk _ Hin) as (k & ch & E). destruct (delivery_enabled c s w r x Ht) as (D1 & D2 & _).
+    specialize (Hch _ Hin). unfold chan_of in *. rewrite E in *. cbn in *.
+    destruct ch; [destruct (D2 eq_refl) as [s' Hs]; exists ANil, s'; exact Hs
+                 |destruct (D1 (or_introl eq_refl)) as [s' Hs]; exists AOk, s'; exact Hs
+                 |destruct (D1 (or_intror eq_refl)) as [s' Hs]; exists AOk, s'; exact Hs
+                 |congruence]. }
+  destruct (wpc s) eqn:Ew.
+  - congruence.
+  - (* worker idle *)
+    destruct (fch s) as [|f t] eqn:Ef.
+    + (* look at the actor *)
+      destruct (apc s) eqn:Ea.
+      * congruence.
+      * destruct (amode s) eqn:Em.
+        -- destruct (ich s) as [|q t] eqn:Ei.
+           ++ assert (Hw : b_w (buf s) <> []).
+              { intro Hb. apply Hne. unfold pipeline, wk_part, a_pre, a_post. now rewrite Ew, Ef, Ea, Hb, Ei. }
+              assert (0 < b_rows (buf s)).
+              { destruct (b_w (buf s)) eqn:Eb; [congruence|]. rewrite len_cons in B4. pose proof (len_nonneg l). lia. }
+              destruct (tick_enabled c s Ea Em H Htl) as (s' & Hs & _). exists LTickFlush, s'. split; [exact I|exact Hs].
+           ++ exists (LActorTake q). eexists. split; [exact I|]. cbn [step]. rewrite Ea, Em, Ei, Nat.eqb_refl. reflexivity.
+        -- destruct (ich s) as [|q t] eqn:Ei.
+           ++ exists LDrainEnd. cbn [step]. rewrite Ea, Em, Ei. destruct (buf_nonempty (buf s)); eexists; split; try exact I; reflexivity.
+           ++ exists (LActorTake q). eexists. split; [exact I|]. cbn [step]. rewrite Ea, Em, Ei, Nat.eqb_refl. reflexivity.
+        -- destruct (L5 eq_refl) as (Hi & Hb & _). exfalso. apply Hne. unfold pipeline, wk_part, a_pre, a_post. now rewrite Ew, Ef, Ea, Hb, Hi.
+      * (* AHold r *)
+        assert (Hin : In r (pipeline s)) by (unfold pipeline, a_post; rewrite Ea; rewrite !in_app_iff; cbn; auto 8).
+        destruct (Hlk _ Hin) as (k & ch & E).
+        assert (Hkw : kind_wf k = true).
+        { apply (kind_of_wf s r); [eapply reachable_invk; eauto|]. unfold kind_of. now rewrite E. }
+        destruct k as [|v ct].
+        -- exists LActorForce. eexists. split; [exact I|]. cbn [step]. unfold kind_of. rewrite Ea, E. reflexivity.
+        -- destruct ct as [|p ct'].
+           ++ exists LActorAckNow. eexists. split; [exact I|]. cbn [step]. unfold kind_of. rewrite Ea, E. reflexivity.
+           ++ destruct v.
+              ** exists (LActorBuffer (limit_flush c (buf_add r (p :: ct') (buf s)) (p :: ct'))). cbn [step]. unfold kind_of. rewrite Ea, E. cbn [option_map fst].
+                 destruct (limit_flush c (buf_add r (p :: ct') (buf s)) (p :: ct')) eqn:El; cbn; eexists; split; try exact I; reflexivity.
+              ** exists LActorReject. eexists. split; [exact I|]. cbn [step]. unfold kind_of. rewrite Ea, E. reflexivity.
+      * destruct (Hdel Actor r x) as (o & s' & Hs); [unfold target; now rewrite Ea|]. exists (LAck Actor o), s'. split; [exact I|exact Hs].
+      * exists LFqSent. eexists. split; [exact I|]. cbn [step]. rewrite Ea, Ef. unfold len. cbn.
+        replace (0 <? c_fcap c) with true by (symmetry; apply Z.ltb_lt; lia). reflexivity.
+      * destruct l as [|q t]; [exfalso; eapply N2; eauto|].
+        destruct (Hdel Actor q RErr) as (o & s' & Hs); [unfold target; now rewrite Ea|]. exists (LAck Actor o), s'. split; [exact I|exact Hs].
+      * specialize (L6 eq_refl). destruct (L5 L6) as (Hi & Hb & _). exfalso. apply Hne. unfold pipeline, wk_part, a_pre, a_post. now rewrite Ew, Ef, Ea, Hb, Hi.
+    + exists LWorkerTake. eexists. split; [exact I|]. cbn [step]. rewrite Ew, Ef. reflexivity.
+  - (* WHold *)
+    destruct (wlive s) eqn:El.
+    + destruct (fparts f) eqn:Ep.
+      * exists LFlAckOnly. eexists. split; [exact I|]. cbn [step]. rewrite Ew, Ep, El. reflexivity.
+      * exists LFlBegin. eexists. split; [exact I|]. cbn [step]. rewrite Ew, Ep, El. reflexivity.
+    + exists LFlAbandoned. eexists. split; [exact I|]. cbn [step]. rewrite Ew, (N3 _ eq_refl eq_refl). reflexivity.
+  - (* WStep *)
+    assert (exists k, allowed ph k = true) as [k Hk] by (destruct ph; [exists KCreate|exists KWrite|exists KAbort|exists KClose|exists KTomb|exists KUpdate]; reflexivity).
+    exists (LSBegin k). eexists. split; [exact I|]. cbn [step]. rewrite Ew, Hk. reflexivity.
+  - (* WIn *)
+    exists (LSEnd k true). cbn [step]. rewrite Ew.
+    replace (skind_eqb k k) with true by (destruct k; reflexivity).
+    destruct (next_phase c ph k true); eexists; split; try exact I; reflexivity.
+  - destruct l as [|q t]; [exfalso; eapply N1; eauto|].
+    destruct (Hdel Worker q x) as (o & s' & Hs); [unfold target; now rewrite Ew|]. exists (LAck Worker o), s'. split; [exact I|exact Hs].
+  - destruct (L8 eq_refl) as [Hm Hf]. specialize (L7 Hm). specialize (L6 L7). destruct (L5 L6) as (Hi & Hb & _).
+    exfalso. apply Hne. unfold pipeline, wk_part, a_pre, a_post. now rewrite Ew, Hf, L7, Hb, Hi.
+Qed.
